@@ -63,7 +63,8 @@ Inductive op := Fly (m : mission) | SetOptions (o : options).
 Section Fly.
   (* ---- oracles ---- *)
   (* the context constructor: the fixed information of the flight (a dictionary of attributes) or a reason *)
-  Variable ctor : options -> mission -> dict + Z.
+  (* it is handed the builder (`builder=self`): it may read it, through the same attribute view as everything else *)
+  Variable ctor : options -> (string -> option value) -> mission -> dict + Z.
   Variable calc : options -> (string -> option value) -> (Z * Z) + Z.     (* (starting mass, fuel load) or a reason *)
   Variable iter_once : options -> (string -> option value) -> (Z * Z) + Z. (* (trajectory, residual) or a reason *)
   Variable small : options -> Z -> bool.                                  (* abs(residual) < mass_iter_reltol *)
@@ -140,7 +141,7 @@ Section Fly.
 
   (* Builder.fly *)
   Definition fly (b : builder) (m : mission) : builder * outcome :=
-    match ctor (b_opts b) m with
+    match ctor (b_opts b) (view b) m with
     | inr r =>
         (* the constructor raised: self.ctx was never assigned; the finally clause runs *)
         match b_ctx b with
@@ -180,7 +181,7 @@ Record script := mkscript {
 (* the replaying oracles read the iteration number from the context attribute "iter" that the replayed
    constructor plants and the replayed [adjust] does not touch; to stay inside the model the iteration
    counter is carried in the starting-mass token instead: token = mission id * 1000 + iteration number *)
-Definition replay_ctor (ss : list script) (_ : options) (m : mission) : dict + Z :=
+Definition replay_ctor (ss : list script) (_ : options) (_ : string -> option value) (m : mission) : dict + Z :=
   match s_ctor (nth (Z.to_nat (m_id m)) ss (mkscript None None [])) with
   | Some r => inr r
   | None => inl [("mission", Some (m_id m)); ("starting_mass", None); ("total_fuel_mass", None)]
